@@ -217,6 +217,26 @@ impl ResKind {
     pub fn accesses(self, name: &str, uid: usize) -> Vec<(&'static str, Stmt)> {
         let assign = |e: String| Stmt { full: format!("{e};"), simple_init: Some(e.clone()), simple_update: Some(e) };
         let letf = |n: &str, e: String| Stmt { full: format!("let {n}{uid} = {e};"), simple_init: Some(format!("var {n}{uid} = {e}")), simple_update: None };
+        // forms that name the variable without reading it: still a static access (WGSL 'statically accessed' = the
+        // function contains an identifier expression resolving to the variable)
+        let phony = Stmt { full: format!("_ = {name};"), simple_init: None, simple_update: None };
+        let unused_ptr = |path: &str| Stmt { full: format!("let up{uid} = &{name}{path};"), simple_init: None, simple_update: None };
+        let mut forms = self.accesses_core(name, uid);
+        match self {
+            ResKind::Uniform | ResKind::StorageRead | ResKind::PushConstant | ResKind::StorageRw => {
+                forms.push(("phony-assignment", phony));
+                forms.push(("unused-pointer", unused_ptr("")));
+            }
+            ResKind::StorageAtomic => forms.push(("unused-pointer", unused_ptr(".counter"))),
+            ResKind::StorageRuntime => forms.push(("unused-pointer", unused_ptr(".data"))),
+            ResKind::Texture | ResKind::StorageTexture => forms.push(("phony-assignment", phony)),
+            ResKind::TextureSampled => forms.push(("phony-assignment", Stmt { full: format!("_ = {name}; _ = {name}_s;"), simple_init: None, simple_update: None })),
+        }
+        forms
+    }
+    fn accesses_core(self, name: &str, uid: usize) -> Vec<(&'static str, Stmt)> {
+        let assign = |e: String| Stmt { full: format!("{e};"), simple_init: Some(e.clone()), simple_update: Some(e) };
+        let letf = |n: &str, e: String| Stmt { full: format!("let {n}{uid} = {e};"), simple_init: Some(format!("var {n}{uid} = {e}")), simple_update: None };
         match self {
             ResKind::Uniform | ResKind::StorageRead | ResKind::PushConstant => vec![
                 ("load-component", assign(format!("acc = {name}.x"))),
